@@ -210,15 +210,23 @@ func (gen *Generator) PerftTactical(depth int) int64 {
 
 func (gen *Generator) PerftDivTactical(depth int)  {
 	var total int64 = 0
-	if depth <= 1 {
+	if depth < 1 {
 		return
 	}
 
 	for _, move := range gen.GenerateMoves() {
-		gen.PushMove(move.mov)
-		subTotal := gen.PerftTactical(depth - 1)
+		var subTotal int64
+		if depth == 1 {
+			// the root move itself is the last move of the path
+			if move.flags&mFlagTactical != 0 {
+				subTotal = 1
+			}
+		} else {
+			gen.PushMove(move.mov)
+			subTotal = gen.PerftTactical(depth - 1)
+			gen.PopMove()
+		}
 		total += subTotal
-		gen.PopMove()
 		fmt.Printf("%v: %d\n", move.mov, subTotal)
 	}
 	fmt.Println("total material-changing moves:", total)
